@@ -259,3 +259,22 @@ add('B35', [('SRC/dgsrfs.c', "			irow = Astore->rowind[i];\n			s += fabs(Aval[i]
             ('SRC/cgsrfs.c', "			irow = Astore->rowind[i];\n			s += c_abs1(&Aval[i]) * c_abs1(&Xptr[irow]);", "			s += c_abs1(&Aval[i]) * c_abs1(&Xptr[Astore->rowind[i]]);"),
             ('SRC/zgsrfs.c', "			irow = Astore->rowind[i];\n			s += z_abs1(&Aval[i]) * z_abs1(&Xptr[irow]);", "			s += z_abs1(&Aval[i]) * z_abs1(&Xptr[Astore->rowind[i]]);")], [], ['C13'],
     note='row index used inline in the transposed |A||x| sum (all four variants; a one-sided version of this edit is reported by the d~z skeleton rule, by design)')
+
+# ---------------------------------------------------------------- benign edits aimed at the rules of DESIGN 12.12 (round 5)
+add('B36', x4('SRC/?column_dfs.c', "				if ( chmark != jcolm1 ) jsuper = SLU_EMPTY;", "				if ( jcolm1 != chmark ) jsuper = SLU_EMPTY;"), [], ['C01', 'C02', 'C03', 'C04'],
+    note='operands of the membership test of the DFS copy swapped (the direct copy keeps its order)')
+add('B37', x4('SRC/?pivotL.c', "	*pivrow = lsub_ptr[pivptr];\n    }\n    \n    /* Record pivot row */", "	*pivrow = lsub_ptr[pivptr];\n    }\n    itemp = pivptr; pivptr = itemp; *pivrow = lsub_ptr[pivptr];\n\n    /* Record pivot row */"),
+    [], ['C02', 'C03', 'C04'], note='a redundant re-synchronisation of *pivrow and pivptr before the record')
+add('B38', x4('SRC/?gsrfs.c', "	Bptr = &Bmat[j*ldb];", "	Bptr = Bmat + j*ldb;"), [], ['C13', 'C05'], note='column of B by pointer arithmetic')
+add('B39', x4('SRC/?gscon.c', "    /* Quick return if possible */\n    *rcond = 0.;", "    /* Quick return if possible (after the screening) */\n    *rcond = 0.0;"), [], ['C18', 'C12'], note='comment / literal spelling near the quick return')
+add('B40', x4('SRC/ilu_?pivotL.c', "	    if ( rtemp != 0.0 && rtemp >= thresh ) pivptr = old_pivptr;", "	    if ( rtemp >= thresh && rtemp != 0.0 ) pivptr = old_pivptr;"), [], ['C15'],
+    note='conjuncts of the remembered-pivot guard swapped')
+add('B41', x4('SRC/?gsequ.c', "    for (i = 0; i < A->nrow; ++i) r[i] = 0.;", "    for (i = A->nrow - 1; i >= 0; --i) r[i] = 0.;"), [], ['C19', 'C11'], note='r[] cleared back to front')
+add('B42', x4('SRC/?gsequ.c', "    rcmin = bignum;\n    rcmax = 0.;\n    for (j = 0; j < A->ncol; ++j) {", "    rcmax = 0.;\n    rcmin = bignum;\n    for (j = 0; j < A->ncol; ++j) {"), [], ['C11'],
+    note='the two re-initialisations before the column pass swapped')
+add('B43', [('SRC/zreadhb.c', "    register double realpart;", "    double realpart;")], [], ['C16'], note='storage class dropped')
+add('B44', x4('SRC/?sp_blas2.c', "			irow = L_SUB(iptr);\n			++luptr;", "			++luptr;\n			irow = L_SUB(iptr);"), [], ['C12', 'C14'],
+    note='sp_?trsv single-column loop: the two independent cursor statements swapped')
+add('B45', x4('SRC/?gsitrf.c', "		    xlusup[jj + 1]++;\n", "		    xlusup[jj + 1] += 1;\n"), [], ['C09', 'C15'], note='reservation written as += 1')
+add('B46', x4('SRC/ilu_?drop_row.c', "    for (i = first + 1; i <= last + 1; i++)", "    for (i = first + 1; i < last + 2; i++)"), [], ['C03'], note='pointer fix-up loop with an exclusive bound')
+add('B47', x4('SRC/?lacon2.c', "*n - 1) + 1.);", "*n - 1) + 1.0);"), [], ['C12', 'C13'], note='literal spelling in the alternating vector')
